@@ -1,2 +1,4 @@
 from props.client_props import gen_c14
-PROP = {"id": "C14", "stages": [{"name": "client", "target": "h_client", "gen": gen_c14, "shard": 12}], "trivial_tags": [], "rule": "", "assumptions": []}
+PROP = {"id": "C14", "stages": [{"name": "client", "target": "h_client", "gen": gen_c14, "shard": 12}], "trivial_tags": [],
+        "rule": 'three recording observers added / removed at random points of random histories (simple, multi-reply, refused, cancelled calls, transfers, listings); observer tokens vs. the transcript (commands written, replies consumed) in wire order.',
+        "assumptions": ["in-memory control transport (a socket_base subclass) stands in for the TCP control socket; data connections are real loopback TCP", "oracle values (read sizes, kernel-chosen ports, connect results) are taken from the implementation run"]}
